@@ -35,6 +35,13 @@ func verifPairs() []verifPair {
 		{"data", "data \"d\" {\n  id = \"i\"\n  obj {\n    w = 1\n  }\n}\n", "{ \"data\": { \"d\": { \"id\": \"i\", \"obj\": { \"w\": 1 } } } }\n", 2},
 		{"opt-member", "opt \"o\" {\n  x = var.v\n  member {\n    who = var.v\n  }\n}\n",
 			"{ \"opt\": { \"o\": { \"x\": \"${var.v}\", \"member\": { \"who\": \"${var.v}\" } } } }\n", 2},
+		{"be-partial", "be \"s3\" {\n  backend = \"s\"\n  bucket = \"b\"\n}\n",
+			"{ \"be\": { \"s3\": { \"backend\": \"s\", \"bucket\": \"b\" } } }\n", 2},
+		{"be-special", "be \"s3\" {\n  backend = \"special\"\n  special_opt = \"o\"\n}\n",
+			"{ \"be\": { \"s3\": { \"backend\": \"special\", \"special_opt\": \"o\" } } }\n", 2},
+		{"mod-siblings", "mod \"m\" {\n  source = \"./m\"\n  input = \"i\"\n}\nmod \"m\" {\n  source = \"./n\"\n  other = \"o\"\n}\n",
+			"{ \"mod\": [ { \"m\": { \"source\": \"./m\", \"input\": \"i\" } }, { \"m\": { \"source\": \"./n\", \"other\": \"o\" } } ] }\n", 2},
+		{"flagged-on", "flagged {\n  on = true\n  extra = \"x\"\n}\n", "{ \"flagged\": { \"on\": true, \"extra\": \"x\" } }\n", 2},
 		{"mixed", "top = \"t\"\nvariable \"v\" {\n  type = number\n}\nout \"o\" {\n  value = var.v\n}\n",
 			"{ \"top\": \"t\", \"variable\": { \"v\": { \"type\": \"number\" } }, \"out\": { \"o\": { \"value\": \"${ var.v }\" } } }\n", 2},
 	}
@@ -117,14 +124,26 @@ func VerifP_C01C02C19_JSONvsNative(i int) {
 	// the outline of a JSON file is only available through the workspace query (Decoder.Symbols -> PathDecoder.symbols)
 	sn, _ := dn.symbols("")
 	sj, _ := dj.symbols("")
+	verifOutlineSame(sn, sj)
+	verifReach("end")
+}
+
+// verifOutlineSame: the same items in the same order, recursively through blocks (the elements of
+// attribute values are not compared: the two syntaxes represent expressions differently).
+func verifOutlineSame(sn, sj []Symbol) {
 	verifAssert(len(sn) == len(sj), "C19:outline-length-same")
 	for k := range sn {
 		if k < len(sj) {
 			verifAssert(sn[k].Name() == sj[k].Name(), "C19:outline-name-same")
 			verifAssert(verifRealRange("j.tf.json", sj[k].Range()), "C02:json-symbol-range")
+			_, nb := sn[k].(*BlockSymbol)
+			_, jb := sj[k].(*BlockSymbol)
+			verifAssert(nb == jb, "C19:outline-kind-same")
+			if nb && jb {
+				verifOutlineSame(sn[k].NestedSymbols(), sj[k].NestedSymbols())
+			}
 		}
 	}
-	verifReach("end")
 }
 
 // C14 for JSON (with schema): the outline of a JSON file, through the workspace query.
@@ -141,7 +160,34 @@ func verifJSONSymbolSeeds() []string {
 		"{ \"top\": \"t\", \"locals\": { \"a\": \"x\" } }\n",
 		"{ \"res\": [ { \"aws\": { \"a\": { \"size\": 1 } } }, { \"aws\": { \"b\": { \"size\": 2 } } } ], \"top\": \"t\" }\n",
 		many,
+		"{ \"mod\": [ { \"m\": { \"source\": \"./m\", \"input\": \"i\" } }, { \"m\": { \"source\": \"./n\", \"other\": \"o\" } } ] }\n",
+		"{ \"be\": { \"s3\": { \"backend\": \"s\", \"bucket\": \"b\" } }, \"two\": { \"kind\": \"a\", \"ab_opt\": \"x\" } }\n",
 	}
+}
+
+// verifJSONOutlines: the written items of the seeds above, block bodies in braces (empty: not stated)
+func verifJSONOutlines() []string {
+	return []string{
+		"top;locals{a}",
+		"",
+		"",
+		"mod \"m\"{source;input};mod \"m\"{source;other}",
+		"be \"s3\"{backend;bucket};two{kind;ab_opt}",
+	}
+}
+
+func verifOutlineString(syms []Symbol) string {
+	out := ""
+	for k, sy := range syms {
+		if k > 0 {
+			out += ";"
+		}
+		out += sy.Name()
+		if _, isBlock := sy.(*BlockSymbol); isBlock {
+			out += "{" + verifOutlineString(sy.NestedSymbols()) + "}"
+		}
+	}
+	return out
 }
 
 func verifSymbolsOrdered(syms []Symbol, file string) {
@@ -168,6 +214,9 @@ func VerifP_C01C02C14_JSONSymbols(i int) {
 	syms, err := d.symbols("")
 	if err == nil {
 		verifSymbolsOrdered(syms, "j.tf.json")
+		if want := verifJSONOutlines()[i]; want != "" {
+			verifAssert(verifOutlineString(syms) == want, "C14:json-outline-is-the-written-items")
+		}
 	}
 	verifNoWrites("C04:json-symbols-writes", true)
 	verifReach("end")
